@@ -18,7 +18,7 @@ def meta(tier):
                             standards=["f2003", "f2008"], ignore_comments=[True, False]),
                 assumptions=["names differ from keywords/intrinsics; labels distinct",
                              "graph checks are concrete per path; the solver quantifies over the lexemes that select the path"],
-                budget_s=400 if q else 1500, unit_budget_s=60 if q else 300)
+                budget_s=400 if q else 1200, unit_budget_s=60 if q else 300)
 
 
 def _kids(node, out):
